@@ -35,8 +35,11 @@ type c17Case struct {
 	// End: how each session's history ends: "" | client-close (close packet in a data request) |
 	// server-close-pending-poll | upgrade-pending-poll: responses written while or after the
 	// session leaves its polling transport
-	End  string `json:"end"`
-	Seed string `json:"seed"`
+	End string `json:"end"`
+	// OuterVary: an outer handler has already put "Vary: Accept-Encoding" on every response
+	// before the engine is entered
+	OuterVary bool   `json:"outer_handler_sets_vary"`
+	Seed      string `json:"seed"`
 }
 
 var c17Origins = []string{"", "https://a.example", "https://b.example", "https://evil.example", "https://a.example.evil.test", "null", "https://sub.a.example"}
@@ -59,6 +62,7 @@ func genC17(rng *rand.Rand) c17Case {
 		c.Origins = append(c.Origins, c17Origins[rng.IntN(len(c17Origins))])
 	}
 	c.End = []string{"", "client-close", "server-close-pending-poll", "upgrade-pending-poll"}[rng.IntN(4)]
+	c.OuterVary = rng.IntN(4) == 0
 	return c
 }
 
@@ -191,7 +195,11 @@ func runC17(c c17Case, r *rep.Report) (key, msg string, stats map[string]int64) 
 			if co := c.corsOptions(); co != nil {
 				so.SetCors(co)
 			}
-			w := rig.NewWorld(rig.Options{Server: so})
+			wo := rig.Options{Server: so}
+			if c.OuterVary {
+				wo.PreHeaders = http.Header{"Vary": {"Accept-Encoding"}}
+			}
+			w := rig.NewWorld(wo)
 			defer w.Finish()
 			eff := w.Eng.Opts().Cookie()
 			if c.Cookie != "" {
